@@ -160,6 +160,7 @@ func (t *Type) resolve(file *File) error {
 			if !ok {
 				return fmt.Errorf("type not found: %v.%v", t.ImportName, t.Name)
 			}
+			imp.Used = true
 			t._resolve(def, imp)
 		}
 	}
